@@ -278,7 +278,9 @@ Deliver(r) ==
           /\ UNCHANGED <<conn, dirty, pend, cur, bel>>
      ELSE IF f.snap \/ pos[r][f.d] = [t |-> f.t - 1, c |-> f.pre]
      THEN /\ has' = [has EXCEPT ![r][f.d] = TRUE]              \* CreateDBIfNotExists
-          /\ img' = [img EXCEPT ![r][f.d] = f.post]
+          \* a snapshot replaces the image; a file is a delta: on any other image than the one it was cut
+          \* from it yields garbage
+          /\ img' = [img EXCEPT ![r][f.d] = IF f.snap \/ @ = f.pre THEN f.post ELSE [d |-> "corrupt", v |-> -2]]
           /\ pos' = [pos EXCEPT ![r][f.d] = [t |-> f.t, c |-> f.post]]
           /\ inflight' = [inflight EXCEPT ![r] = Tail(@)]
           /\ UNCHANGED <<conn, dirty, pend, cur, bel>>
@@ -313,7 +315,6 @@ OnHistory == \A r \in R, d \in DBs : pos[r][d] \in committed[d] \/ pos[r][d] = f
 FilterRespected == \A r \in R, d \in DBs : ~Passes(r, d) => (pos[r][d] = foreign[r][d] /\ has[r][d] = (foreign[r][d] # ZeroPos))
 \* ... and no frame that names such a database is ever put on its stream
 NoFrameOutsideFilter == \A r \in R : \A i \in 1..Len(inflight[r]) : Passes(r, inflight[r][i].d)
-\* the server's belief never runs ahead of what it has sent (sanity of the model)
 Quiescent(r) == conn[r] /\ inflight[r] = <<>> /\ dirty[r] = {} /\ pend[r] = {}
 ConvergedOn(r, d) ==
   IF Passes(r, d) /\ pex[d] /\ ppos[d].t > 0
